@@ -83,7 +83,7 @@ func c01Run(c *Ctx) {
 		ar := c.Sub("api")
 		added = addAPIOptions(ar, b, true)
 		var toks []string
-		toks, addedWant, _ = apiOccurrences(ar, added)
+		toks, addedWant, _ = apiOccurrences(ar, added, true)
 		args = append(toks, args...)
 		c.Note("added", describeAPI(added))
 		c.Count("api_added_options", int64(len(added)))
